@@ -4,6 +4,7 @@ pub mod calendar;
 pub mod frame;
 pub mod parser;
 pub mod resolve;
+pub mod sizes;
 pub mod walk;
 
 use std::path::Path;
